@@ -131,7 +131,7 @@ package mail
 //@ func mail.Client.checkConn
 //@   requires[C03,C04:session] client != nil ==> csess(client)
 //@   ensures[C03,C04:session] client != nil ==> csess(client) && txsame(client.Text)
-//@   ensures[C03,C04,C13:nonnil] r0 == nil ==> client != nil
+//@   ensures[C03,C04,C13,C20:nonnil] r0 == nil ==> client != nil
 //@ func mail.Client.ResetWithSMTPClient
 //@   requires[C03,C04:session] client != nil ==> csess(client)
 //@   ensures[C03,C04:session] client != nil ==> csess(client) && (!client.Text.ioerr ==> client.Text.eodacks == old(client.Text.eodacks) && (r0 == nil ==> client.Text.txn == 0) && (r0 != nil ==> client.Text.txn == old(client.Text.txn)))
@@ -207,3 +207,19 @@ package mail
 //@   ensures[C07:nothing-in-clear] mandatory(c) ==> world.clearcmds == old(world.clearcmds)
 //@   ensures[C07:mandatory-means-tls] err == nil && mandatory(c) ==> client.tls
 //@ at mail.Client.DialToSMTPClientWithContext mail.Client.auth#1 before assert[C07:tls-before-auth] mandatory(c) ==> client.tls
+
+// ---------------------------------------------------------------------------
+// C20  SendError reflects the server's verdict (classification functions)
+//
+//@ func mail.isTempError
+//@   ensures[C20:temp-iff-4yz] replyerr(err) ==> (result <==> ecode(err) / 100 == 4)
+//@ func mail.errorCode
+//@   ensures[C20:code] replyerr(err) && 400 <= ecode(err) && ecode(err) <= 599 ==> result == ecode(err)
+//@ func mail.enhancedStatusCode
+//@   ensures[C20:esc-only-when-advertised] !supported ==> result == ""
+//@ func mail.Client.sendSingleMsg (client, message) (err)
+//@   requires[C20:wf] c != nil && client != nil && message != nil
+//@   ensures[C20:affected] err != nil ==> istype(err, "*mail.SendError") && as(err, "*mail.SendError").affectedMsg == message
+//@ func mail.Client.SendWithSMTPClient
+//@   requires[C20:wf] c != nil
+//@ at mail.Client.SendWithSMTPClient mail.Client.sendSingleMsg#1 after assert[C20:no-stale-error] result == nil ==> message.sendError == nil
